@@ -23,6 +23,25 @@ func VerifC08Graveyard() {
 	const tick = int64(2_000_000_000) // > default GC rate-limit interval
 
 	committed := newDBModel()
+	type itstate struct {
+		it   ChangeIterator[*vobj]
+		s    *c07state
+		open bool
+	}
+	var its []*itstate
+	mkIters := func() {
+		for i := 0; i < NIT; i++ {
+			w := d.db.WriteTxn(t)
+			it, err := t.Changes(w)
+			vnd.Assert(err == nil, "C08.changes.err")
+			w.Commit()
+			its = append(its, &itstate{it: it, s: &c07state{d: d, committed: committed, replay: &vnd.Map{}}, open: true})
+		}
+	}
+	// EARLY=1: the iterators are created on the never-written table (revision 0)
+	if vnd.Param("EARLY", 0) == 1 {
+		mkIters()
+	}
 	w := d.db.WriteTxn(t)
 	for _, k := range []string{"a", "b"} {
 		t.Insert(w, &vobj{id: []byte(k)})
@@ -31,18 +50,8 @@ func VerifC08Graveyard() {
 	}
 	w.Commit()
 
-	type itstate struct {
-		it     ChangeIterator[*vobj]
-		s      *c07state
-		open   bool
-	}
-	var its []*itstate
-	for i := 0; i < NIT; i++ {
-		w := d.db.WriteTxn(t)
-		it, err := t.Changes(w)
-		vnd.Assert(err == nil, "C08.changes.err")
-		w.Commit()
-		its = append(its, &itstate{it: it, s: &c07state{d: d, committed: committed, replay: &vnd.Map{}}, open: true})
+	if vnd.Param("EARLY", 0) == 0 {
+		mkIters()
 	}
 	anyOpen := func() bool {
 		for _, x := range its {
@@ -115,6 +124,9 @@ func VerifC08Graveyard() {
 			vnd.Assert(gt.numDeletedObjects(rt) == 0, "C08.nothing-retained-without-iterators")
 		}
 	}
+	// let the collector run once more before the lagging iterators catch up
+	vnd.Sleep(tick)
+	vnd.Settle()
 	// safety: every still-open (lagging) iterator converges to the final table:
 	// a deletion collected before it was handed out would leave a stale object
 	for _, x := range its {
